@@ -23,7 +23,24 @@ from props import c04 as C4
 
 PROPERTY = "C15"
 LEAN_MODULE = "CrCube.Props.C15"
-THEOREMS = []
+THEOREMS = [
+    "CrCube.C15.row_share_spec",
+    "CrCube.C15.col_share_spec",
+    "CrCube.C15.total_share_spec",
+    "CrCube.C15.row_shares_sum_to_one",
+    "CrCube.C15.col_shares_sum_to_one",
+    "CrCube.C15.total_shares_sum_to_one",
+    "CrCube.C15.col_share_additive",
+    "CrCube.C15.row_share_additive",
+    "CrCube.C15.total_share_additive",
+    "CrCube.C15.strand_share_base",
+    "CrCube.C15.strand_share_subtotal",
+    "CrCube.C15.strand_shares_sum_to_one",
+    "CrCube.C15.column_share_legacy_counterexample",
+    "CrCube.C15.row_share_legacy_counterexample",
+    "CrCube.C15.total_share_legacy_counterexample",
+    "CrCube.C15.legacy_agrees_elsewhere",
+]
 RULE = ("sum responses: survey-based cubes (rows/cols in cat, cat_date, mr, ca; optional table dimension) and "
         "hand-built numeric-array responses, sums arbitrary rationals with NaN cells, zero and negative totals; 0-3 "
         "insertions per cat-like dimension (sums, differences, stale ids, overlaps) at view and transform level. "
